@@ -2,6 +2,7 @@ package main
 
 import (
 	"fmt"
+	"time"
 
 	"github.com/rs/zerolog/diode/verifh/evid"
 	"github.com/rs/zerolog/diode/verifh/gen"
@@ -24,6 +25,13 @@ func c01Case(f *evid.Flags, idx, nExh int, hits *[9]map[string]int) (*gen.Progra
 		g.P.MaxDepth = 7
 	}
 	st := g.RandomSettings(true)
+	if r.Chance(1, 12) {
+		// duration units no other check uses: negative, and zero (float form only: the integer form divides by it)
+		st.DurationFieldUnit = []time.Duration{0, -1, -1000000}[r.Intn(3)]
+		if st.DurationFieldUnit == 0 {
+			st.DurationFieldInteger = false
+		}
+	}
 	g.S = &st
 	if idx < nExh {
 		return gen.ClassStringProgram(gen.ClassString(idx), st), g
@@ -39,7 +47,7 @@ func c01(args []string) int {
 		L = 3
 	}
 	nExh := gen.NClassStrings(L)
-	total := nExh + f.N(200000, 12000000)
+	total := nExh + f.N(200000, 5000000)
 	var hits [9]map[string]int
 	x := &gen.Exec{}
 	for idx := 0; idx < total; idx++ {
